@@ -1,6 +1,7 @@
 #!/bin/bash
 # usage: try_mutant.sh <diff> <prop>...   applies the diff to /repo, runs the quick checks, reverts
 d=$1; shift
+keep=$(mktemp -d); cp -r /verif/evidence $keep/evidence
 cd /repo && [ -z "$(git status --porcelain)" ] || { echo "REPO DIRTY"; exit 4; }; git apply "$d" || { echo "APPLY FAILED $d"; exit 3; }
 for p in "$@"; do
   out=$(cd /verif && timeout 900 ./bin/govc check --property $p --tier quick 2>&1)
@@ -9,4 +10,5 @@ for p in "$@"; do
   echo "$p rc=$rc violations=$nviol :: $(echo "$out" | grep '^VIOLATION' | sed 's/.*replays\/[A-Z0-9]*\///' | sed 's/__.*//' | sort | uniq -c | head -5 | tr '\n' ';')"
   echo "$out" | grep -i 'engine error' | head -3
 done
-cd /repo && git checkout -- . 
+cd /repo && git checkout -- .
+rm -rf /verif/evidence && cp -r $keep/evidence /verif/evidence && rm -rf $keep 
